@@ -114,5 +114,8 @@ def choose(
         choices = numpoly.stack(numpoly.align_polynomials(*choices))
     choices = numpoly.aspolynomial(choices)
     a = numpy.asarray(a)
+    if not a.shape and choices.ndim == 1:
+        # numpy can not iterate a 0-d selection over structured scalars.
+        return choose(a[numpy.newaxis], choices[:, numpy.newaxis], out=out, mode=mode)[0]
     result = numpy.choose(a, choices=choices.values, out=out, mode=mode)
     return numpoly.aspolynomial(result, names=choices.indeterminants)
